@@ -518,6 +518,17 @@ def cases(quick, seed):
     ]:
         add('misc', q, None, optsets=[OPT_DEFAULT, OPTSETS_ALL[-1]])
 
+    # -- statements whose result is not the query's own (ANALYZE returns
+    #    the plan as a string, DESCRIBE text, EXPLAIN-like wrappers)
+    for q in ['analyze select User { name }', 'analyze select 1',
+              "analyze select 'x'", 'analyze select (1, [2])',
+              'analyze select User { friends: { name, @since } }',
+              'analyze insert User { name := "x", roles := <Code>"a" }',
+              'analyze select <int64>$p', 'describe schema',
+              'describe type User', 'describe object User as sdl',
+              'describe schema as ddl']:
+        add('wrapped', q, (lambda o: 'std::str'),
+            optsets=[OPT_DEFAULT, OPTSETS_ALL[-1]] + OPTS_OTHER_FMT[:1])
     # -- parameters
     ptypes = ['std::int64', 'std::str', 'default::Color', 'default::Pos2',
               ('array', 'std::int64'), ('array', 'default::Color'),
